@@ -42,6 +42,7 @@ VARIABLES
 vars == <<l, alive, cfg, assoc, pfd, sess, ipHeld, teidHeld, ended, stale, relabel, peerTs, ddnLast, srrSeqs, tainted, used, tables, cmds, snap, chk, last>>
 
 Dev(name) == name \in KnownDevs
+OnUp4 == cfg.dp = "up4"      \* the trace was recorded on the UP4 datapath
 
 ----------------------------------------------------------------------------
 (* reading a line *)
@@ -324,7 +325,9 @@ ModEv ==
                !.markers = (known =>
                   /\ {[peer |-> e.markers[i].peer, teid |-> e.markers[i].teid, src |-> e.markers[i].src] : i \in 1..Len(e.markers)}
                        = EndMarkersDue(s0, req, cfg)
-                  /\ Len(e.markers) = Cardinality(EndMarkersDue(s0, req, cfg))      \* exactly one per rule
+                  /\ \A t \in EndMarkersDue(s0, req, cfg) :                       \* exactly one per rule (rules may share a tunnel)
+                        Cardinality({i \in 1..Len(e.markers) : [peer |-> e.markers[i].peer, teid |-> e.markers[i].teid, src |-> e.markers[i].src] = t})
+                          = EndMarkersDueTo(s0, req, cfg, t)
                   /\ \A i \in 1..Len(e.markers) :
                         /\ e.markers[i].ok /\ e.markers[i].gtpType = 254              \* a GTP-U End Marker ...
                         /\ e.markers[i].sport = 2152 /\ e.markers[i].dport = 2152     \* ... UDP 2152 -> 2152
@@ -618,7 +621,7 @@ C08_ProvisionedApplicationUsable == chk.mustAccept
 \* C09 (BESS): QER values as signalled, session-level QER chosen soundly
 QosCfg == [q \in {cfg.qos[i].qfi : i \in 1..Len(cfg.qos)} |-> cfg.qos[CHOOSE i \in 1..Len(cfg.qos) : cfg.qos[i].qfi = q]]
 C09_QerValuesAsSignalled ==
-  AfterAcceptedSessionReq =>
+  (AfterAcceptedSessionReq /\ ~OnUp4) =>
     \A u \in DOMAIN sess :
        \/ \E sq \in SessQerChoices(sess[u]) :
              /\ QerKeysOK(tables.appQer, tables.sessQer, u, sess[u], sq)
@@ -626,12 +629,15 @@ C09_QerValuesAsSignalled ==
        \/ u \in Relaxed /\ QerValuesRelabelOK(tables, u, sess[u], QosCfg)
 \* the QER the datapath treats as session-wide limiter is referenced by every PDR of the session
 C09_SessionQerSound ==
-  AfterAcceptedSessionReq =>
+  (AfterAcceptedSessionReq /\ ~OnUp4) =>
     \A u \in DOMAIN sess :
        \/ \E sq \in SessQerChoices(sess[u]) :
              /\ QerKeysOK(tables.appQer, tables.sessQer, u, sess[u], sq)
              /\ SoundSessQer(sess[u], sq)
        \/ u \in Relaxed
+
+\* C09 on the UP4 datapath (the traffic class and the gates are part of C04_TablesAreImage)
+C09_Up4PeakRatesAsSignalled == (OnUp4 /\ last.ev = "req" /\ last.kind \in {"estab", "mod"} /\ last.accepted) => U4!PeakRatesOK(tables.up4, sess, cfg.up4)
 
 \* C10
 C10_StopCompletesWithoutPanic == chk.stopClean
@@ -660,7 +666,6 @@ C13_AtMostOncePerInterval == chk.srrRate
 C13_ReportRequestShape == chk.srrShape
 
 \* C04 (UP4 datapath)
-OnUp4 == cfg.dp = "up4"
 AfterAccepted4 == last.ev = "req" /\ last.kind \in {"estab", "mod", "del", "release"} /\ last.accepted
 C04_Applies == OnUp4 /\ (AfterAccepted4 \/ last.ev \in {"start", "lost"})
 C04_TablesAreImage == C04_Applies => U4!TablesAreImage(tables.up4, sess, cfg.up4)
